@@ -459,3 +459,83 @@ pub fn c11_mutate_graph_as_dataset() {
 // NB: remove_matching / retain_matching through a view are NOT covered: the default methods collect the matches
 // into a Vec<[SimpleTerm; 3]> (heap strings, SimpleTerm::from_term); two harness formulations (3 and 2 quads)
 // did not finish in 15 and 40 minutes. Stated as outside the claim in DESIGN.md.
+
+// bulk insertion/removal THROUGH graph-as-dataset (insert_all / remove_all of a quad stream): quads of the default
+// graph behave like the graph's own insert/remove; a named-graph quad makes insert_all fail there (nothing of it is
+// added) and is ignored by remove_all.
+pub struct QSrc {
+    pub items: [Qd; 2],
+    pub pos: usize,
+}
+impl Iterator for QSrc {
+    type Item = Result<([VT; 3], Option<VT>), Infallible>;
+    fn next(&mut self) -> Option<Self::Item> {
+        if self.pos >= 2 {
+            return None;
+        }
+        let q = self.items[self.pos];
+        self.pos += 1;
+        Some(Ok(([VT(q.s), VT(q.p), VT(q.o)], gname(q.g))))
+    }
+}
+
+#[cfg(kani)]
+#[kani::proof]
+#[kani::unwind(6)]
+pub fn c11_gad_bulk() {
+    let mut slots = any_slots(true);
+    slots[NQ - 1] = None;
+    slots[NQ - 2] = None; // room for two insertions
+    let mut g1 = ArrG { t: slots };
+    let mut g2 = g1;
+    let items = [any_qd(false), any_qd(false)];
+    let ins: bool = kani::any();
+    if ins {
+        let r = g1.as_dataset_mut().insert_all(QSrc { items, pos: 0 });
+        // reference: items in order; a named-graph quad stops the stream with a sink error
+        let mut count = 0;
+        let mut failed = false;
+        let mut i = 0;
+        while i < 2 {
+            if !failed {
+                if items[i].g != 0 {
+                    failed = true;
+                } else if g2.insert(VT(items[i].s), VT(items[i].p), VT(items[i].o)).ok() == Some(true) {
+                    count += 1;
+                }
+            }
+            i += 1;
+        }
+        kani::cover!(failed && count == 1, "named-graph quad after an effective insertion");
+        match r {
+            Ok(n) => assert!(!failed && n == count, "insert_all through graph-as-dataset: wrong count, or a named-graph quad was accepted"),
+            Err(e) => {
+                assert!(failed && e.is_sink_error(), "insert_all through graph-as-dataset failed although every quad was in the default graph");
+                std::mem::forget(e);
+            }
+        }
+    } else {
+        let r = g1.as_dataset_mut().remove_all(QSrc { items, pos: 0 });
+        let mut count = 0;
+        let mut i = 0;
+        while i < 2 {
+            if items[i].g == 0 && g2.remove(VT(items[i].s), VT(items[i].p), VT(items[i].o)).ok() == Some(true) {
+                count += 1;
+            }
+            i += 1;
+        }
+        kani::cover!(count == 1 && (items[0].g != 0 || items[1].g != 0), "a named-graph quad next to an effective removal");
+        match r {
+            Ok(n) => assert!(n == count, "remove_all through graph-as-dataset removed a triple for a named-graph quad, or miscounted"),
+            Err(e) => {
+                assert!(false, "remove_all through graph-as-dataset failed");
+                std::mem::forget(e);
+            }
+        }
+    }
+    let mut i = 0;
+    while i < NQ {
+        assert!(g1.t[i] == g2.t[i], "bulk mutation through graph-as-dataset left the graph in another state than the per-quad semantics");
+        i += 1;
+    }
+}
